@@ -5,6 +5,7 @@ import (
 	"flag"
 	"fmt"
 	"math/rand"
+	"sort"
 	"strings"
 
 	"github.com/herohde/morlock/pkg/board"
@@ -43,7 +44,7 @@ func decodeFen(s string) (ev out.M) {
 	default:
 		re := fen.Encode(pos, turn, np, fm)
 		// clocks as decimal strings: they may exceed what the model checker's integers hold
-		val := out.M{"pos": proj.Position(pos, turn), "np": fmt.Sprint(np), "fm": fmt.Sprint(fm), "reenc": re}
+		val := out.M{"pos": proj.Position(pos, turn), "np": fmt.Sprint(np), "fm": fmt.Sprint(fm), "reenc": re, "moves": pseudoTexts(pos, turn)}
 		// every view of the decoded position must agree with the square lookup
 		consistent := true
 		for c := board.ZeroColor; c < board.NumColors; c++ {
@@ -64,7 +65,7 @@ func decodeFen(s string) (ev out.M) {
 		if err2 != nil || p2 == nil {
 			val["dec2"] = out.M{"ok": false}
 		} else {
-			val["dec2"] = out.M{"ok": true, "pos": proj.Position(p2, t2), "np": fmt.Sprint(np2), "fm": fmt.Sprint(fm2)}
+			val["dec2"] = out.M{"ok": true, "pos": proj.Position(p2, t2), "np": fmt.Sprint(np2), "fm": fmt.Sprint(fm2), "moves": pseudoTexts(p2, t2)}
 		}
 		ev["outcome"] = "value"
 		ev["val"] = val
@@ -72,7 +73,18 @@ func decodeFen(s string) (ev out.M) {
 	return ev
 }
 
-var junk = []string{"", " ", "  ", "/", "9", "0", "x", "K", "k", "-", "w", "b", "KQkq", "e3", "e9", "i3", "-1", "+1", "1e3",
+// pseudoTexts: what the move generator makes of a position (it reads the position's fields directly, not
+// through the accessors the projection uses): "the same position" must also move the same.
+func pseudoTexts(pos *board.Position, turn board.Color) []string {
+	ret := []string{}
+	for _, m := range pos.PseudoLegalMoves(turn) {
+		ret = append(ret, fmt.Sprintf("%v:%v", moveText(m), int(m.Type)))
+	}
+	sort.Strings(ret)
+	return ret
+}
+
+var junk = []string{"", " ", "  ", "/", "9", "0", "x", "K", "k", "-", "w", "b", "KQkq", "e3", "e9", "i3", "e4", "d5", "a5", "h4", "c6", "f3", "-1", "+1", "1e3",
 	"99999999999999999999", "\t", "\n", "\x00", "é", "٣", "８", "\U0001F600", "8/8", "pppppppp", "88", "44", "1111"}
 
 var numEdges = []string{"2147483647", "2147483648", "4294967295", "4294967296", "9223372036854775807", "9223372036854775808",
@@ -214,7 +226,17 @@ func textfuzz(args []string) {
 		case 0, 1, 2:
 			emit(canonicalFen(r))
 		case 3:
-			emit(base[r.Intn(len(base))])
+			if r.Intn(2) == 0 {
+				// any square whatsoever in the en passant field: whatever is accepted must survive re-encoding
+				f := strings.Fields(base[r.Intn(len(base))])
+				if r.Intn(2) == 0 {
+					f = strings.Fields(canonicalFen(r))
+				}
+				f[3] = fmt.Sprintf("%c%c", 'a'+r.Intn(8), '1'+r.Intn(8))
+				emit(strings.Join(f, " "))
+			} else {
+				emit(base[r.Intn(len(base))])
+			}
 		case 4:
 			emit(mutate(r, canonicalFen(r)))
 		default:
